@@ -18,7 +18,7 @@ use reactive_graph::{
         MappedSignal, ReadSignal, RwSignal, WriteSignal,
     },
     traits::{
-        Dispose, Get, GetUntracked, Notify, Read, ReadUntracked, Set, Track, Update,
+        Dispose, Get, GetUntracked, Notify, Read, ReadUntracked, Set, ToStream, Track, Update,
         UpdateUntracked, UntrackableGuard, With, WithUntracked, Write,
     },
     wrappers::{
@@ -216,6 +216,29 @@ thread_local! {
 struct Ret {
     v: i64,
     _nested: Vec<RenderEffect<Ret>>,
+}
+type ValStream = Pin<Box<dyn futures::Stream<Item = i64> + Send>>;
+thread_local! {
+    // effect kind 6: `signal.to_stream()`; the effect inside is library code, so its runs are
+    // read off the stream after every poll: (effect id, signal id, stream)
+    static STREAMS: RefCell<Vec<(usize, usize, ValStream)>> = RefCell::new(vec![]);
+}
+/// one item = one run of the stream's internal effect, which read the signal with `get()`
+fn drain_streams() {
+    use futures::{FutureExt, StreamExt};
+    let mut got = vec![];
+    STREAMS.with(|st| {
+        for (e, j, s) in st.borrow_mut().iter_mut() {
+            while let Some(Some(v)) = s.next().now_or_never() {
+                got.push((*e as i64, *j as i64, v));
+            }
+        }
+    });
+    for (e, j, v) in got {
+        ev(1, vec![e]);
+        ev(2, vec![e, j, v, 1]);
+        ev(3, vec![e, v]);
+    }
 }
 thread_local! {
     // RenderEffects created by the body that is running (innermost last)
@@ -863,6 +886,7 @@ fn exec_poll_nth(k: usize) -> Option<i64> {
             Poll::Pending => EXEC.with(|e| e.borrow_mut().tasks[id].fut = Some(fut)),
         }
     }
+    drain_streams();
     EXEC.with(|e| {
         let e = e.borrow();
         if e.canon.contains(&label) {
@@ -962,6 +986,7 @@ fn run_case(c: &Sexp, mask: u8) -> Sexp {
     });
     KEEP.with(|k| k.borrow_mut().clear());
     NESTED.with(|n| n.borrow_mut().clear());
+    STREAMS.with(|x| x.borrow_mut().clear());
     let prog = c.at(0).list();
     let ops = c.at(1).list();
     let root = Owner::new();
@@ -1120,6 +1145,42 @@ fn run_case(c: &Sexp, mask: u8) -> Sexp {
                     None => root.child(),
                 };
                 EXEC.with(|x| x.borrow_mut().label = i as i64);
+                if kind == 6 {
+                    // (3 6 (1 j) (0 0) ..): `signal_j.to_stream()` created under this owner
+                    let j = match &e {
+                        Expr::Rd(j) => *j,
+                        _ => panic!("case: to_stream wants the body (1 j)"),
+                    };
+                    // the stream type borrows the handle it was made from (`&self` is captured by
+                    // the `impl Stream` of the trait method): the handle clone is leaked
+                    fn leak<T>(x: T) -> &'static T {
+                        Box::leak(Box::new(x))
+                    }
+                    let st: ValStream = match &hs[j] {
+                        Handle::ArcRw(s) => {
+                            let s = leak(s.clone());
+                            owner.with(|| Box::pin(s.to_stream()) as ValStream)
+                        }
+                        Handle::Pair(r, _) => {
+                            let r = leak(*r);
+                            owner.with(|| Box::pin(r.to_stream()) as ValStream)
+                        }
+                        Handle::Rw(s) => {
+                            let s = leak(*s);
+                            owner.with(|| Box::pin(s.to_stream()) as ValStream)
+                        }
+                        Handle::ArcPair(r, _) => {
+                            let r = leak(r.clone());
+                            owner.with(|| Box::pin(r.to_stream()) as ValStream)
+                        }
+                        _ => panic!("case: to_stream of a node that is not a signal"),
+                    };
+                    STREAMS.with(|x| x.borrow_mut().push((i, j, st)));
+                    effs.push(Some(EffRec { owner, handle: EffHandle::Gone, parent }));
+                    is_eff.push(true);
+                    hs.push(Handle::Effect);
+                    continue;
+                }
                 let handle = owner.with(|| make_effect(kind, i, e, hd, lower, nd.at(5).num()));
                 eff = Some(EffRec { owner, handle, parent });
                 Handle::Effect
@@ -1241,6 +1302,7 @@ fn run_case(c: &Sexp, mask: u8) -> Sexp {
     CTX.with(|x| x.borrow_mut().mask = 255);
     drop(effs);
     drop(hs);
+    STREAMS.with(|x| x.borrow_mut().clear());
     KEEP.with(|k| k.borrow_mut().clear());
     root.cleanup();
     drop(root);
